@@ -96,6 +96,28 @@ CLAIMS = {
             "content. The unguarded hash/nested-loop candidates for input-sensitive right operands are two confirmed known "
             "findings. Equality of the three join algorithms' multisets for all inputs is not decided.",
             "MIR field-to-sink taint (key completeness), sibling arm comparison, forbidden-effect scan, cost taint"),
+    "C01": ("DESIGN.md §4 C01",
+            "Decides seven necessary conditions of `no construct of the fragment is lost or treated differently between parser, "
+            "lowering, planner, executor and the two finalizers`: parser-emitted aggregate and comparison keys all have explicit "
+            "reader arms (string tables from MIR), the three semantic walkers have no silent default arm, every executor arm "
+            "consumes its input bindings on every path, scans carry the graph scope, both finalizers decide grouping from GROUP BY "
+            "and aggregates (defect fixed) and apply modifiers in the same order, and plan memo keys are complete. Equality of the "
+            "returned rows with the algebra's multiset is not decided.",
+            "MIR string-table extraction, enum-dispatch arm analysis, must-use reachability, decider taint, shared memo-key rule"),
+    "C13": ("DESIGN.md §4 C13",
+            "Decides two necessary conditions for independence from prior content and chunking: identifiers read from one store "
+            "never reach another store's insert API unless re-encoded or the stores provably share a dictionary (taint with store "
+            "identities, owner resolution for bare indexes), and per-chunk workers of the parallel line loaders carry no state "
+            "across lines except their output and handle no document-global directive. parse_n3 violates all three (confirmed "
+            "known findings). Tokeniser correctness per format is not decided.",
+            "MIR taint with store identities, loop-carried state analysis in closures"),
+    "C17": ("DESIGN.md §4 C17",
+            "Decides, over every call path, that no body that mutably projects the stored dataset_index is callable from the "
+            "query-only entry points (context-sensitive cut for text already accepted by the SELECT-only parser), that the Update "
+            "arm refuses before the database is handed to anything, and that the HTTP adapter only goes through the query entry. "
+            "Two neural-materialisation sink calls are confirmed known findings. Clean failure of the string entry points "
+            "(certificates) is decided by the C16 engine where registered.",
+            "call-graph reachability with verified guarded cuts, role-defined sinks"),
 }
 
 NA = {
